@@ -65,6 +65,10 @@ func helperOfReviewed(p *Prog, fn *ssa.Function, kind, ch string) []string {
 }
 
 func runC09(p *Prog, r *Report) {
+	if want("C09.13") {
+		// (shared with C18) a send on a closed channel panics the caller
+		ruleNoSendOnClosedChannel(p, r, "C09.13")
+	}
 	if want("C09.1") {
 		ruleTokenContracts(p, r, "C09.1", 12)
 	}
